@@ -149,6 +149,10 @@ func ParseStreamCallback(reader io.Reader, c Config, callback ParseCallback) err
 			node.Elements.Add(title, fQty)
 		}
 	}
+	// a read error or an over-long line stops the scanner early: report it instead of a shortened result
+	if err = lineScanner.Err(); err != nil {
+		return err
+	}
 	// push last node
 	if node != nil {
 		_, err = callback(node, nil)
